@@ -64,7 +64,7 @@ func runC08(c *engine.Ctx) {
 						framings := []string{"plain"}
 						if dl == "exact" {
 							// (parts are sent with the aws-chunked framing like whole objects)
-							framings = []string{"plain", "chunked", "chunked-dec+1", "chunked-dec-1"}
+							framings = []string{"plain", "chunked", "chunked-dec+1", "chunked-dec-1", "chunked-dec=-1"}
 						} else if dl == "plus1" {
 							// a complete aws-chunked stream in a body that ends before its Content-Length
 							framings = []string{"plain", "chunked"}
@@ -257,7 +257,7 @@ func c08Run(c *engine.Ctx, cs c08Case) (string, string, string) {
 	}
 	wire := body
 	switch cs.framing {
-	case "chunked", "chunked-dec+1", "chunked-dec-1":
+	case "chunked", "chunked-dec+1", "chunked-dec-1", "chunked-dec=-1":
 		if cs.empty {
 			wire = drv.EncodeChunked(body, nil)
 		} else if cs.big {
@@ -272,6 +272,9 @@ func c08Run(c *engine.Ctx, cs c08Case) (string, string, string) {
 		} else if cs.framing == "chunked-dec-1" {
 			dec--
 			reasons = append(reasons, "IncompleteBody")
+		} else if cs.framing == "chunked-dec=-1" {
+			dec = -1 // a negative length is no length
+			reasons = append(reasons, "IncompleteBody", "MissingContentLength", "InvalidArgument")
 		}
 		req.Header = append(req.Header, [2]string{"X-Amz-Content-Sha256", "STREAMING-AWS4-HMAC-SHA256-PAYLOAD"}, [2]string{"X-Amz-Decoded-Content-Length", strconv.Itoa(dec)})
 	}
